@@ -140,8 +140,13 @@ def _run_perm(case, ck):
     tol = TOLERANCES["permutation-" + opt]
     det = H.det_points(PTS)
     fps = []
-    for meth in (1, 0):
-        base = _field(det, _spheres(sub), Multisphere(meth=meth, **kw))
+    for meth in (1, 0, -1):
+        # meth -1: order-of-scattering again, but ONE theory object reused
+        # for every permutation
+        shared = Multisphere(meth=1, **kw) if meth == -1 else None
+        meth = 1 if meth == -1 else meth
+        base = _field(det, _spheres(sub), shared or
+                      Multisphere(meth=meth, **kw))
         ck.trans += 1
         peak = np.abs(base).max()
         ck.true("finite", np.isfinite(base).all(), "non-finite field")
@@ -149,7 +154,7 @@ def _run_perm(case, ck):
             if list(order) == list(range(len(sub))):
                 continue
             f = _field(det, _spheres(sub, list(order)),
-                       Multisphere(meth=meth, **kw))
+                       shared or Multisphere(meth=meth, **kw))
             ck.trans += 1
             e = float(np.abs(f - base).max() / peak)
             ck.metric("permutation-" + opt, e)
@@ -205,9 +210,15 @@ def _run_rot(case, ck):
     det0 = H.det_points(PTS)
     fps = []
     for opt, kw, tol in (("default", {}, TOLERANCES["rotation-default"]),
-                         ("tight", TIGHT, TOLERANCES["rotation-tight"])):
+                         ("tight", TIGHT, TOLERANCES["rotation-tight"]),
+                         ("tight-reused-theory", TIGHT,
+                          TOLERANCES["rotation-tight"])):
+        # third pass: ONE theory object serves the base and every rotated
+        # configuration (a solution remembered inside the object under a
+        # rotation-invariant key would show here)
+        shared = Multisphere(**kw) if opt.endswith("reused-theory") else None
         pol0 = (math.cos(0.3), math.sin(0.3))
-        base = _field(det0, _spheres(sub), Multisphere(**kw), pol0)
+        base = _field(det0, _spheres(sub), shared or Multisphere(**kw), pol0)
         ck.trans += 1
         peak = np.abs(base).max()
         for ang in ROTS:
@@ -218,12 +229,12 @@ def _run_rot(case, ck):
             P1 = pivot + (PTS - pivot) @ R.T
             pol1 = (math.cos(0.3 + ps), math.sin(0.3 + ps))
             f = _field(H.det_points(P1), _spheres(sub, R=R, pivot=pivot),
-                       Multisphere(**kw), pol1)
+                       shared or Multisphere(**kw), pol1)
             ck.trans += 1
             ref = base.copy()
             ref[:, :2] = base[:, :2] @ R[:2, :2].T
             e = float(np.abs(f[:, :2] - ref[:, :2]).max() / peak)
-            ck.metric("rotation-" + opt, e)
+            ck.metric("rotation-" + opt.replace("-reused-theory", ""), e)
             ck.true("rotation-covariant", e <= tol, "cluster %r rotated by "
                     "%g deg about the optical axis: field differs from the "
                     "rotated field by %.2e (%s options)" %
